@@ -317,6 +317,25 @@ func CacheKeyShape(p *core.Program, r *core.Report, rule string) {
 						}
 					}
 				}
+				// the label library's canonical text of a whole set: labels.Set(m).String() / labels.FormatLabels(m) -
+				// sorted k=v entries joined by commas, and neither '=' nor ',' can occur in a label key or value
+				if strings.HasSuffix(fn.Pkg().Path(), "apimachinery/pkg/labels") {
+					if core.RefName(fn) == "FormatLabels" {
+						for _, a := range x.Args {
+							if isParam(a) {
+								whole = true
+							}
+						}
+					}
+					if sel, ok := ast.Unparen(x.Fun).(*ast.SelectorExpr); ok && core.RefName(fn) == "String" {
+						recv := ast.Unparen(ResolveLocal(info, vf.Decl.Body, sel.X))
+						if c, isC := recv.(*ast.CallExpr); isC && core.IsConversion(info, c) && len(c.Args) == 1 && isParam(c.Args[0]) {
+							if core.TypeIs(info.TypeOf(c), fn.Pkg().Path(), "Set") {
+								whole = true
+							}
+						}
+					}
+				}
 				// pieces written one by one: Write / WriteString / io.WriteString
 				if core.RefName(fn) == "Write" || core.RefName(fn) == "WriteString" {
 					for _, a := range x.Args {
